@@ -100,6 +100,9 @@ def _axioms(z3, exprs):
         S = T.UF["sqrt"]
         for a in [x.arg(0) for x in apps["sqrt"]]:
             ax.append(z3.Implies(a >= 0, z3.And(S(a) >= 0, S(a) * S(a) == a)))
+            for k in (Fraction(1, 10**12), Fraction(1, 10**6), Fraction(1, 1000), Fraction(1)):
+                ax.append(z3.Implies(a >= RV(k * k), S(a) >= RV(k)))
+                ax.append(z3.Implies(z3.And(a >= 0, a <= RV(k * k)), S(a) <= RV(k)))
     if "sigmoid" in apps:
         S = T.UF["sigmoid"]
         for a in [x.arg(0) for x in apps["sigmoid"]]:
